@@ -41,7 +41,15 @@ def run_one(case):
         try:
             if case["op"] == "tight":
                 return "|".join(common.short_hash(x) if not x.startswith("err:") else x for x in H.run_tight(case).split("|"))
-            _, _, out = H.OPS[case["op"]](case, G, _NoInstr(), tmp)
+            if case.get("verbose") and os.environ.get("C18X_VERBOSE") == "1":
+                with common.verbose_logging():
+                    H._VERBOSE[0] = True
+                    try:
+                        _, _, out = H.OPS[case["op"]](case, G, _NoInstr(), tmp)
+                    finally:
+                        H._VERBOSE[0] = False
+            else:
+                _, _, out = H.OPS[case["op"]](case, G, _NoInstr(), tmp)
             return common.short_hash(out)
         except Exception as e:
             return "err:" + type(e).__name__
@@ -54,7 +62,7 @@ def run_one(case):
 
 def main():
     import logging
-    logging.disable(logging.CRITICAL)
+    logging.disable(logging.CRITICAL)          # verbose_logging() overrides this for the marked cases
     with open(sys.argv[1]) as f:
         cases = json.load(f)
     out = [run_one(c) for c in cases]
